@@ -243,6 +243,11 @@ func runC15(o *cli.Opts, run *evid.Run) {
 			for k := 0; k < o.Pick(30, 300); k++ {
 				offs[r.Int63n(int64(len(data)))] = true
 			}
+			for _, unit := range []int64{512, 4 << 10, 32 << 10, 64 << 10, 1 << 20, 4 << 20, 16 << 20} {
+				for m := int64(1); m <= 3; m++ {
+					offs[unit*m] = true // buffer-size multiples
+				}
+			}
 			for k := 0; k < o.Pick(10, 100); k++ { // concentrate on the last section too
 				offs[bounds[3]+r.Int63n(int64(len(data))-bounds[3])] = true
 			}
@@ -275,7 +280,24 @@ func runC15(o *cli.Opts, run *evid.Run) {
 				if out, det := readOutcome(func() error { _, e := prover.ReadSystemFromFile(fp); return e }); out != "loaded" {
 					run.Violate(key+"/"+fmtName(raw)+"/full-file", "the complete real file does not load through ReadSystemFromFile: "+out+" "+det, nil)
 				}
-				for k, off := range []int64{bounds[2] / 2, bounds[3] + 5, int64(len(data)) - 1, 3} {
+				fileCuts := []int64{bounds[2] / 2, bounds[3] + 5, int64(len(data)) - 1, 3}
+				// cuts at buffer-size multiples (what an interrupted copy or download through a chunked reader leaves
+				// behind, and where a reader that fetches the file in fixed-size pieces meets end-of-file exactly at a
+				// piece boundary)
+				for _, unit := range []int64{4 << 10, 64 << 10, 1 << 20, 4 << 20, 16 << 20} {
+					for _, m := range []int64{1, 2, 3} {
+						if c := unit * m; c < int64(len(data)) {
+							fileCuts = append(fileCuts, c)
+						}
+					}
+				}
+				if c := int64(len(data)) &^ (4<<20 - 1); c > 0 && c < int64(len(data)) {
+					fileCuts = append(fileCuts, c) // the last 4 MiB multiple inside the file
+				}
+				for k, off := range fileCuts {
+					if hangSeen.Load() {
+						break
+					}
 					path := fp
 					if k%2 == 1 {
 						path = fp + ".cut"
